@@ -994,9 +994,17 @@ func (t *txattrwalk) handle(cs *connState) message {
 			return linux.EINVAL
 		}
 		size = len(buf)
+
+		// The xattr fid is clunked independently of fid, and its clunk
+		// closes its File: give it a File of its own (a clone) rather than
+		// sharing ref.file, which must stay usable and be closed only once.
+		_, xf, err := ref.file.Walk(nil)
+		if err != nil {
+			return err
+		}
 		newRef := &fidRef{
 			server: cs.server,
-			file:   ref.file,
+			file:   xf,
 			pendingXattr: pendingXattr{
 				op:   xattrWalk,
 				name: t.Name,
